@@ -9,15 +9,20 @@ from .values import *
 _REG = []
 
 
-def intrinsic(pattern, label=None):
+_PRIO = []
+
+
+def intrinsic(pattern, label=None, prio=0):
     def deco(f):
         _REG.append((re.compile(pattern), f, label or f.__name__.lstrip('_')))
+        _PRIO.append(prio)
         return f
     return deco
 
 
 def register_all(eng):
-    eng.intrinsics.extend(_REG)
+    order = sorted(range(len(_REG)), key=lambda i: (-_PRIO[i], i))
+    eng.intrinsics.extend(_REG[i] for i in order)
 
 
 def some(v):
@@ -901,3 +906,50 @@ def _opt_ok_or(eng, st, args, ci):
     if 1 in v.payloads:
         pl[0] = v.payloads[1]
     return Enum('Result', d, pl)
+
+
+# ---------------------------------------------------------------- char classification (exact Unicode sets)
+
+WHITE_SPACE = [(9, 13), (32, 32), (0x85, 0x85), (0xA0, 0xA0), (0x1680, 0x1680), (0x2000, 0x200A), (0x2028, 0x2029), (0x202F, 0x202F),
+               (0x205F, 0x205F), (0x3000, 0x3000)]
+
+
+def is_whitespace_expr(e):
+    return z3.Or([z3.And(z3.UGE(e, a), z3.ULE(e, b)) if a != b else e == a for (a, b) in WHITE_SPACE])
+
+
+@intrinsic(r'^(core::)?char::methods::<impl char>::is_whitespace$', 'char::is_whitespace (Unicode White_Space, exact)')
+def _char_is_whitespace(eng, st, args, ci):
+    c = _deref_arg(eng, st, args[0])
+    return is_whitespace_expr(c.e)
+
+
+@intrinsic(r'^(core::)?char::methods::<impl char>::is_ascii_digit$', 'char::is_ascii_digit')
+def _char_is_ascii_digit(eng, st, args, ci):
+    c = _deref_arg(eng, st, args[0])
+    return z3.And(z3.UGE(c.e, 48), z3.ULE(c.e, 57))
+
+
+@intrinsic(r'^(core::)?char::methods::<impl char>::len_utf8$', 'char::len_utf8')
+def _char_len_utf8(eng, st, args, ci):
+    c = _deref_arg(eng, st, args[0])
+    e = c.e
+    r = z3.If(z3.ULT(e, 0x80), z3.BitVecVal(1, 64), z3.If(z3.ULT(e, 0x800), z3.BitVecVal(2, 64), z3.If(z3.ULT(e, 0x10000), z3.BitVecVal(3, 64), z3.BitVecVal(4, 64))))
+    return BV(r, 'usize')
+
+
+# ---------------------------------------------------------------- smart pointers: Rc / Box / RefCell / RefMut (modelled as a Ref to the content)
+
+@intrinsic(r'^<(std::rc::)?(Rc|Lrc|Arc)<.*> as (std::ops::)?Deref>::deref$|^<(std::boxed::)?Box<.*> as (std::ops::)?Deref(Mut)?>::deref(_mut)?$|^<(std::cell::)?(RefMut|Ref)<.*> as (std::ops::)?Deref(Mut)?>::deref(_mut)?$',
+           'Deref for Rc/Box/RefMut (pointer to the content)', prio=5)
+def _smart_deref(eng, st, args, ci):
+    v = eng.read_ref(st, args[0])
+    if not isinstance(v, Ref):
+        raise Unsupported('smart pointer deref of %r' % (v,))
+    return v
+
+
+@intrinsic(r'^(std::cell::)?RefCell::<.*>::(borrow_mut|borrow)$', 'RefCell::borrow(_mut) (no dynamic borrow check; pointer to the content)', prio=5)
+def _refcell_borrow(eng, st, args, ci):
+    r = args[0]
+    return Ref(r.key, r.projs + (('field', 0),), ci.func.endswith('borrow_mut'))
